@@ -175,6 +175,13 @@ class DictVM(pyvc.VM):
         return ValV(c["result"](*zs))
 
     def member_of(self, a, b):
+        if isinstance(b, ValV):
+            # `k in d` on a dictionary is `k in d.keys()`; on other values (strings, lists, numbers) it is something else
+            if not isinstance(a, KeyV):
+                raise OutsideSubset("membership of %s in a value" % type(a).__name__)
+            if not self.decide(isdict(b.z)):
+                raise OutsideSubset("`in` applied to a non-dictionary value")
+            return haskey(b.z, a.z)
         if isinstance(b, KeysV):
             if not isinstance(a, KeyV):
                 raise OutsideSubset("membership of %s in keys()" % type(a).__name__)
@@ -234,6 +241,8 @@ class DictVM(pyvc.VM):
     def exec(self, st, env):
         if isinstance(st, ast.For):
             return self.exec_for(st, env)
+        if isinstance(st, ast.Continue):
+            raise _Continue()
         return super().exec(st, env)
 
     def exec_for(self, st, env):
@@ -265,7 +274,10 @@ class DictVM(pyvc.VM):
             env2[st.target.id] = pyvc_key(k)
             try:
                 try:
-                    sub.exec_block(st.body, env2)
+                    try:
+                        sub.exec_block(st.body, env2)
+                    except _Continue:
+                        pass                  # the rest of this iteration's body is skipped; nothing follows the body
                     kind, exc = "ok", None
                 except Raised as r:
                     kind, exc = "raise", r.exc
@@ -280,6 +292,10 @@ class DictVM(pyvc.VM):
         self.bad_decreases += sub.bad_decreases
         self.frame_violations += sub.frame_violations
         out.comp = {"k": k, "dicts": it.dicts, "cases": cases, "member": member}
+
+
+class _Continue(Exception):
+    pass
 
 
 def pyvc_key(k):
